@@ -40,7 +40,7 @@ pub enum SetupPolicy {
 /// workload mix of a property's check (weights and menus the per-run swarm draws from)
 #[derive(Clone, Debug)]
 pub struct Mix {
-    pub families: [u32; 13],
+    pub families: [u32; 14],
     pub policies: [u32; 10],
     pub caps: &'static [usize],
     pub fan: &'static [f64],
